@@ -92,15 +92,25 @@ def _one(d, ctx, kind, tier_all, **kw):
                 axis=mm.covariance_class_axis(case))
         m1 = ctx.lib(mm.fit, c2, clause='permuted-start-raises')
         expected = permute_params(p0, perm, m0, case)
-        mm.compare_params(expected, mm.params(m1, c2),
+        p1 = mm.params(m1, c2)
+        mm.compare_params(expected, p1,
                           'fit-not-equivariant', rtol=1e-7, atol=1e-8,
                           kind=kind, what=f'perm={perm}')
         post1 = ctx.lib(mm.predict, m1, c2)
-        # (cBMM: eigenvalues from an iterative solver, summation order of the
-        # classes differs between the two fits)
+        atol = 1e-7
+        if kind == 'cbmm':
+            # the Bingham eigenvalues come from an iterative solver whose two
+            # runs (classes summed in a different order) stop up to its
+            # termination accuracy apart; compare_params has bounded that.  A
+            # parameter matrix that moves by dB moves the log density by at
+            # most 2 |dB| (the log normaliser is 1-Lipschitz in the
+            # eigenvalues), and a posterior by at most half of the largest log
+            # density change: the posteriors have to agree to what the two
+            # parameter sets differ by, no further
+            dB = np.asarray(expected['bingham_matrix']) - np.asarray(p1['bingham_matrix'])
+            atol = 1e-6 + 2 * float(np.max(np.linalg.norm(dB, 2, axis=(-2, -1))))
         require_close(post0[..., perm, :], post1, 'posterior-not-equivariant',
-                      atol=1e-5 if kind == 'cbmm' else 1e-7, what=f'perm={perm}',
-                      kind=kind)
+                      atol=atol, what=f'perm={perm}', kind=kind)
         checked += 1
     ctx.nontrivial(checked > 0)
     ctx.label(f'perms={min(checked, 6)}')
